@@ -1207,6 +1207,16 @@ def _program_flags(repo, rep):
     okp = len(pats) >= 2
     pdetail = []
     for c, pat in pats:
+        # a text run may span lines: '.' has to match a line break
+        fl = [k.value for k in c.keywords if k.arg == "flags"]
+        fl += list(c.args[3:4]) if src(c.func) == "re.sub" else \
+            list(c.args[2:3])
+        dotall = any("DOTALL" in src(x) or src(x).endswith("re.S")
+                     for x in fl)
+        if "." in pat.replace("\\.", "") and not dotall and \
+                "(?s" not in pat:
+            okp = False
+            pdetail.append("'.' does not match a line break in %r" % pat)
         probs, counts = L.regex_shape(pat, 16)
         if probs:
             okp = False
